@@ -394,6 +394,8 @@ def shard(idx, n, seed, tier, params):
                         sig = "P-rejected|loop-label-rejected"
                     elif loops_expanded and bil and blk_ref_in_loop(p0) and all("branch too far" in m for m in o0[1]):
                         sig = "P-rejected|loop-scope-reuse"      # `bne +` of a later iteration reaches for the + of the first one
+                    elif re.search(r"cannot redefine symbol: [^'\"]*\$macro_\d+\.", str(o0[1])):
+                        sig = "P-rejected|stale-macro-scope"
                     else:
                         sig = "P-rejected|%s|%s" % (tag, re.sub(r"[0-9]+", "N", str(o0[1][0]))[:40])
                     acc.violation(sig,
@@ -416,7 +418,12 @@ def shard(idx, n, seed, tier, params):
             acc.cover("nesting_pairs", pr)
         tag = "+".join(sorted(kinds))
         if o1[0] != "ok":
-            acc.violation("expansion-rejected|%s|%s" % (tag, str(o1[1])[:40].split("$")[0]), "P assembles, expand(P) [%s] does not: %s" % (tag, o1[1]),
+            # (known finding: macro scopes are numbered per pass and never emptied; when an invocation in front of another one only
+            # appears in a later pass - its `.if` condition was unknown before - the later one's scope number is taken over together
+            # with what the other macro had defined in it)
+            stale = re.search(r"cannot redefine symbol: [^'\"]*\$macro_\d+\.", str(o1[1]))
+            acc.violation("expansion-rejected|stale-macro-scope" if stale else "expansion-rejected|%s|%s" % (tag, str(o1[1])[:40].split("$")[0]),
+                          "P assembles, expand(P) [%s] does not: %s" % (tag, o1[1]),
                           {"kinds": kinds, "P": f0, "expanded": f1, "base_pc": p0.base_pc, "seed": pseed})
             continue
         acc.nontriv(pseed, tag)
